@@ -346,8 +346,27 @@ class _Sweep:
                        oids=[[1, 3, 6, 1, 4, 1, 9, i] for i in range(L // 4)] or [[1, 3, 6, 1, 4, 1, 9, 0]])
 
 
+class _TickSweep:
+    """every tick count lo..hi built from a timedelta and SET, six bindings per request"""
+
+    def __init__(self, proto, lo, hi):
+        self.a = (proto, lo, hi)
+
+    def __iter__(self):
+        proto, lo, hi = self.a
+        for base in range(lo, hi, 6):
+            yield dict(proto=proto, op="multiset", clock=1_700_000_000,
+                       set=[[[1, 3, 6, 1, 4, 1, 9, 7, i], vber.T_TICKS, vber.int_content(v).hex(), True]
+                            for i, v in enumerate(range(base, min(base + 6, hi)))])
+
+
 def units(tier, seed):
     us = []
+    top = 3000 if tier == "quick" else 120000
+    for k in range(4):
+        us.append(Unit("ticks-from-timedelta-%d" % k, enumeration_unit,
+                       cases=_TickSweep(vworld.V2C_PROTO, k * top // 4, (k + 1) * top // 4),
+                       label="ticks-from-timedelta-%d" % k, exhaustive=False, sample_every=101))
     n = 260 if tier == "quick" else 10000
     for sh in range(16):
         us.append(Unit("hyp-%d" % sh, hypothesis_unit, strategy=cases(), examples=n,
